@@ -170,6 +170,10 @@ def expressions(thorough: bool):
             out.append(('inst', d, ((0, i),)))
             out.append(('dinst', d, ((1, i),)))
         out.append(('dinst', d, ((1, 14), (0, 2))))
+    # the same pending substitution through a notation and written out below another substitution, both in one proof
+    for d in prim[:2]:
+        for k in ('inst', 'dinst'):
+            out += [(k, d, ((0, 24), (1, 25))), (k, d, ((0, 25), (1, 24))), (k, d, ((1, 24), (0, 25)))]
     ir = ('lemma', 'imp_refl', (0,))
     out.append(('lemma2', 'imp_transitivity', ir, ir))
     out.append(('mp', ('inst', ('prop1',), ((0, 0), (1, 0))), ('lemma', 'imp_refl', (0,))))
